@@ -184,6 +184,17 @@ def qmMulFloat (s1 s2 s3 : Nat) : Option (Int × Int) := do
   let (m, e) ← roundTo 24 mp m3 (ep - e3)
   some (quantizeMultiplierOf 24 m e)
 
+/-- `qmMulFloat` with a SIGNED middle factor (LEAKY_RELU: `alpha` may be zero or negative; the reference kernel has no check).
+    IEEE multiplication and division are symmetric in the sign and `QuantizeMultiplier` rounds with `std::round`
+    (half away from zero), so the multiplier of a negative factor is the negated multiplier of its magnitude; a zero factor
+    gives `QuantizeMultiplier(0) = (0, 0)`. -/
+def qmMulFloatSigned (s1 s2 s3 : Nat) : Option (Int × Int) :=
+  let neg := s2 / 2147483648 % 2 = 1
+  let mag := s2 % 2147483648
+  if mag = 0 then (do let _ ← f32Decode s1; let _ ← f32Decode s3; some (0, 0)) else do
+  let (m, s) ← qmMulFloat s1 mag s3
+  some (if neg then -m else m, s)
+
 /-- the three multipliers of ADD / SUB: `s1 / (2 max)`, `s2 / (2 max)`, `(2 max) / (2^leftShift * so)` in double -/
 def qmAdd (s1 s2 so : Nat) (leftShift : Nat) : Option ((Int × Int) × (Int × Int) × (Int × Int)) := do
   let (m1, e1) ← f32Decode s1
